@@ -301,6 +301,80 @@ def io_frame_oracle(conv, fn, fp=40, sp=60):
     return None
 
 
+SHEADER = """From Coq Require Import ZArith List.
+From Hera.Lib Require Import Py Machine.
+From Hera.Model Require Import Stdlib.
+Import ListNotations.
+Open Scope Z_scope.
+"""
+
+
+def strcmp_correspondence(rng, n, disagreements, spec_failures, model_available):
+    import hera.stdlib as sl
+    from hera.data import Settings
+    from hera.vm import VirtualMachine
+    f = getattr(sl, "tiger_tstrcmp_reg", None)
+    if f is None:
+        disagreements.append({"what": "hera/stdlib.py no longer has tiger_tstrcmp_reg: the model has nothing to be compared with"})
+        return 0
+    cases = []
+    for _ in range(n):
+        alphabet = rng.choice([[97, 98], [0, 1, 65535], [97, 98, 99, 32768, 65535, 0], [5]])
+        def mk():
+            return [rng.choice(alphabet) for _ in range(rng.choice([0, 0, 1, 2, 3, 5]))]
+        a = mk()
+        b = list(a[:rng.randrange(len(a) + 1)]) + (mk() if rng.random() < 0.5 else []) if rng.random() < 0.5 else mk()
+        s1 = rng.choice([0, 3, 100, 0xC001, 65500])
+        s2 = s1 + len(a) + 1 + rng.choice([0, 1, 7])
+        cells = {}
+        for base, st in ((s1, a), (s2, b)):
+            cells[base] = len(st)
+            for i, c in enumerate(st):
+                cells[base + 1 + i] = c
+        if rng.random() < 0.2:
+            cells[s2 + len(b) + 1] = rng.choice(alphabet)         # something behind the second string
+        if rng.random() < 0.1:
+            s2 = s1                                                  # the same string twice
+            b = a
+        cases.append((s1, s2, a, b, cells))
+    got = []
+    for s1, s2, a, b, cells in cases:
+        vm = VirtualMachine(Settings())
+        vm.reset()
+        for addr, v in cells.items():
+            if addr < 65536:
+                vm.store_memory(addr, v)
+        vm.registers[1], vm.registers[2] = s1, s2
+        try:
+            f(vm)
+            got.append(vm.registers[1])
+        except BaseException as e:  # noqa
+            got.append("raise %s" % type(e).__name__)
+    for (s1, s2, a, b, cells), g in zip(cases, got):
+        # the strings as the helper sees them (cells beyond 65535 read as 0)
+        ra = [cells.get(s1 + 1 + i, 0) if s1 + 1 + i < 65536 else 0 for i in range(cells[s1])]
+        rb = [cells.get(s2 + 1 + i, 0) if s2 + 1 + i < 65536 else 0 for i in range(cells[s2])]
+        want = 65535 if ra < rb else 1 if ra > rb else 0
+        if g != want:
+            spec_failures.append({"what": "reg tstrcmp of %r and %r (cells at %d and %d) gives %r, the order of the two character lists is %d"
+                                          % (ra, rb, s1, s2, g, want), "function": "tstrcmp"})
+    agree = 0
+    if model_available:
+        terms = []
+        for s1, s2, a, b, cells in cases:
+            live = sorted((k, v) for k, v in cells.items() if k < 65536)
+            mlen = (max(k for k, _ in live) + 1) if live else 0
+            terms.append("[tstrcmp_reg (mem_read (mkmem %s [%s])) %s %s]" % (z(mlen), "; ".join("(%s, %s)" % (z(k), z(v)) for k, v in live), z(s1), z(s2)))
+        outs = coqrun.eval_cases("C19s", SHEADER, terms, shard=500)
+        for c, g, o in zip(cases, got, outs):
+            if o == [g]:
+                agree += 1
+            else:
+                disagreements.append({"what": "tiger_tstrcmp_reg vs Model/Stdlib.tstrcmp_reg", "strings": [c[2], c[3]], "at": [c[0], c[1]],
+                                      "impl": g, "model": o})
+    return agree
+
+
 def known_replays(ctx, findings):
     """D45: the stack-convention getline does not return to its caller."""
     out = []
@@ -348,6 +422,9 @@ def correspondence(ctx, model_available=True):
                 disagreements.append({"what": "tiger_div/tiger_mod vs Model/Stdlib", "args": [a, b], "impl": [fdiv(a, b), fmod(a, b)], "model": o})
     elif model_available:
         disagreements.append({"what": "hera/stdlib.py no longer has tiger_div / tiger_mod: the model has nothing to be compared with"})
+    # (1b) the register-convention tstrcmp (a Python helper over memory) vs Model/Stdlib.tstrcmp_reg, and vs the
+    #      lexicographic order of the two character lists computed here
+    scmp = strcmp_correspondence(rng, 150 if quick else 5000, disagreements, spec_failures, model_available)
     routines = routine_correspondence(disagreements) if model_available else 0
     # (2) the library on the real interpreter
     st = {"calls": 0, "by_function": {}}
@@ -393,7 +470,7 @@ def correspondence(ctx, model_available=True):
                 "out-of-range substring bounds) under random register contents: result vs an independent computation, "
                 "return to the caller, SP/FP restored, R1..R10 preserved (stack convention), malloc blocks disjoint, returned strings "
                 "inside their block; getchar_ord over several lines of standard input",
-        "distribution": {"divmod_pairs": len(pairs), "divmod_model_agree": agree, "routines_compared": routines, **st},
+        "distribution": {"divmod_pairs": len(pairs), "divmod_model_agree": agree, "tstrcmp_model_agree": scmp, "routines_compared": routines, **st},
         "samples": [{"function": "div", "args": [65530, 2]}],
         "disagreements": disagreements[:10], "spec_failures": spec_failures[:5],
         "model_vs_impl_agree": agree, "model_available": model_available,
